@@ -331,6 +331,17 @@ def cli_pass(tier):
                         o[1], o[0], o[2], o[3][:100], ref[2], ref[3][:100], meta["lex"], meta["k"]), None, {"long": longline, "short": shortlines}), {})
         n += 1
     res.parts.append({"part": "cli-long-lines", "cases": res.evaluations})
+    # the reader of the interactive mode: the line-length sweep fed to `bloc -i`, against the library running the same statements
+    from . import c19
+    col = c19.Collector()
+    iexe, ienv = c19.exe_env()
+    scen = []
+    for meta, text in length_cases(tier):
+        scen.append(("%s-%d" % (meta["lex"], meta["k"]), text.rstrip("\n").split("\n")))
+        scen.append(("%s-%d-crlf" % (meta["lex"], meta["k"]), [ln + "\r" for ln in text.rstrip("\n").split("\n")]))
+    c19.interactive_pass(col, iexe, ienv, scen, tag="interactive-long-line")
+    res.merge(col.res)
+    res.parts.append({"part": "interactive-long-lines", "cases": len(scen)})
     return res
 
 
